@@ -11,7 +11,8 @@ RULE = ("layout trees of depth 1-3 (several functionaries of a step delegating, 
         "sublayout; distinct by description.")
 ASSUMPTIONS = ["signatures present are non-malleable (ground-truth table)",
                "recursion depth of the model is bounded by fuel 8 (generated trees have depth <= 3)"]
-SHARED_DEFECTS = [None, "sublinks_missing", "sublinks_in_parent_dir", "sublink_tampered", "sublink_unauthorised"]
+SHARED_DEFECTS = [None, "sublinks_missing", "sublinks_in_parent_dir", "sublink_tampered", "sublink_unauthorised",
+                  "foreign_step_rule", "foreign_step_rule"]
 DEFECTS = [None, None, "wrong_signer", "expired", "edited", "sublinks_missing", "sublinks_in_parent_dir",
            "sublink_tampered", "subrule", "subinspection_fail"]
 
@@ -83,6 +84,20 @@ def gen_shared_case(rng, root):
         stranger = [k for k in pool if k not in ch.owners and k not in (k1, k2) and k not in tstep["keys"]][0]
         for ls in tstep["links"]:
             ls["signer"] = stranger
+    elif defect == "foreign_step_rule":
+        # the second functionary's sublayout has its own step names and a rule that refers to a step of the FIRST
+        # functionary's sublayout (verified just before, same artifacts): a sublayout is verified on its own, so the
+        # rule finds no such step, consumes nothing, and DISALLOW * rejects
+        which = "second"
+        for s_ in sub2.steps:
+            new_name = s_["name"] + "o"
+            for ls in s_["links"]:
+                ls["name"] = new_name
+            s_["name"] = new_name
+        last = sub2.steps[-1]
+        last["rules"] = (last["rules"][0], [["MATCH", "*", "WITH", "PRODUCTS", "FROM", sub1.steps[-1]["name"]], ["DISALLOW", "*"]])
+        if not st["products"]:
+            defect = None
     desc = {"depth": 1, "n_sublayouts": 2, "defect": defect and "shared:" + defect, "shared_sublayout": True,
             "bad_functionary": which if defect else None, "expected_accept": defect is None}
     return ch, desc
